@@ -64,13 +64,21 @@ def header(draw, n=None, min_n=1, max_n=4, unique=True, names=fieldname):
     return draw(st.lists(names, min_size=n, max_size=n, unique=unique))
 
 
+def sizes(lo, hi):
+    """Sizes lo..hi, mid-range first: Hypothesis favours (and shrinks towards) the first
+    element of sampled_from, and a plain integers(lo, hi) produced ~35% zero-row tables."""
+    mid = (lo + hi + 1) // 2
+    order = sorted(range(lo, hi + 1), key=lambda v: (abs(v - mid), v))
+    return st.sampled_from(order)
+
+
 @st.composite
 def table(draw, hdr, cols, max_rows=6, min_rows=0, ragged=False, id_col=None, extra=scalar,
           ragged_odds=4):
     """hdr: list of field names; cols: one cell strategy per field (id_col index gets the row
     number).  ragged: about one row in `ragged_odds` gets a length in 0..n+1."""
     n = len(hdr)
-    nrows = draw(st.integers(min_rows, max_rows))
+    nrows = draw(sizes(min_rows, max_rows))
     rows = []
     for i in range(nrows):
         row = [i if j == id_col else draw(cols[j]) for j in range(n)]
@@ -93,5 +101,8 @@ def square(tbl, missing=None):
 
 def buffersizes(n):
     """Interesting buffersizes for a table of n rows (None = default)."""
-    c = {1, 2, 3, max(1, n - 1), max(1, n), n + 1, 2 * n + 1}
-    return st.one_of(st.none(), st.sampled_from(sorted(c)))
+    c = []
+    for b in (max(1, n), max(1, n - 1), n + 1, 2, 1, 3, 2 * n + 1, None):
+        if b not in c:
+            c.append(b)
+    return st.sampled_from(c)
